@@ -323,7 +323,7 @@ type ccase struct {
 	fuel  int
 	// search-oracle annotations
 	mustCtx  bool // the program cannot finish by itself after cancellation: the context error is required
-	kmin     int  // >0: R[0] counts loop iterations, R[1] holds the count at cancel(); each iteration executes >= kmin instructions
+	kmin     int  // >0: R[0] counts loop iterations, R[1] holds the count at cancel(); each iteration executes kmin instructions (counted in the disassembly)
 	printsTo int  // >=0: the lines 0..printsTo were printed before cancel() and must be in the output
 }
 
@@ -338,10 +338,10 @@ func templates(K, M int, r *hx.Rand) []ccase {
 	f := fmt.Sprintf
 	// tight loops (BEGIN)
 	c := mk("tight-for", f(`BEGIN { c = 0; for (i = 0; i < %d; i++) { if (i == %d) { R[1] = c; cancel() } c++; R[0] = c } print c }`, M, K), "live")
-	c.kmin, c.mustCtx = 8, M-K > 400
+	c.kmin, c.mustCtx = 11, M-K > 400
 	add(c)
 	c = mk("tight-while", f(`BEGIN { n = 0; while (1) { n++; if (n == %d) { R[1] = n; cancel() } R[0] = n } }`, K), "live")
-	c.kmin, c.mustCtx = 6, true
+	c.kmin, c.mustCtx = 9, true
 	add(c)
 	c = mk("tight-do-rec", f(`BEGIN { n = 0; do { n++; if (n == %d) cancel(); rec(n) } while (n < %d); print n }`, K, M), "live")
 	c.mustCtx = M-K > 400
@@ -352,7 +352,7 @@ func templates(K, M int, r *hx.Rand) []ccase {
 	c.mustCtx = false
 	add(c)
 	c = mk("recursion-down", f(`function g(d) { R[0] = d; if (d == %d) { R[1] = d; cancel() } if (d < 900) g(d + 1) } BEGIN { g(0); n = 0; while (1) { n++ } }`, K%500), "live")
-	c.kmin, c.mustCtx = 9, true
+	c.kmin, c.mustCtx = 14, true
 	add(c)
 	c = mk("recursion-depth-error-after-cancel", f(`function h(d) { R[0] = d; if (d == %d) cancel(); h(d + 1) } BEGIN { h(0) }`, 960+K%35), "live")
 	c.mustCtx = true
@@ -367,7 +367,7 @@ func templates(K, M int, r *hx.Rand) []ccase {
 	add(c)
 	// main-loop rules, END
 	c = mk("rules", f(`{ n++ } n == %d { R[1] = n; cancel() } { R[0] = n } END { print n }`, 1+K%3000), "live")
-	c.lines, c.kmin, c.mustCtx = 1+K%3000+1500, 8, true
+	c.lines, c.kmin, c.mustCtx = 1+K%3000+1500, 7, true
 	add(c)
 	c = mk("rules-pattern-only-range", f(`BEGIN { n = 0 } { n++ } n == 3, n == 6 { m++ }
 n %% 100 == 0
@@ -379,7 +379,7 @@ n == %d { cancel() } END { print n, m }`, 1+K%2000), "live")
 	c.mustCtx = true
 	add(c)
 	c = mk("end-block", f(`{ n++ } END { for (i = 0; i < %d; i++) { if (i == %d) { R[1] = i; cancel() } R[0] = i } print i }`, M, K), "live")
-	c.lines, c.kmin, c.mustCtx = 5, 8, M-K > 400
+	c.lines, c.kmin, c.mustCtx = 5, 10, M-K > 400
 	add(c)
 	// pending output
 	c = mk("pending-output", f(`BEGIN { for (i = 0; i < %d; i++) { print i; if (i == %d) cancel() } }`, M, K%1500), "live")
